@@ -102,6 +102,11 @@ def run(ck):
         add_case("copy constraint broken (different wiring, rows satisfied)", A, B)
         C = ["w " + hx(x), "w " + hx(y), "gmul 1 0 0 0 0 0 - $0 $1 0 0"]
         add_case("size mismatch", A, C)
+        # different wiring, EQUAL values: a second witness holding the same value feeds the linked wire; every row and
+        # every compiled copy constraint holds (they are about wire values, not witness indices) - must be proved
+        A2 = ["w " + hx(x), "w " + hx(y), "w " + hx(x), "gmul 1 0 0 0 0 0 - $0 $1 0 0", "gadd 0 1 1 0 0 0 - $3 $0 0 0", "rbits 16 $0"]
+        B2 = A2[:4] + ["gadd 0 1 1 0 0 0 - $3 $2 0 0", "rbits 16 $2"]
+        add_case("different witness allocation with equal values (satisfying)", A2, B2)
     # every small size, starting with the gate-less circuit (4 constraints)
     for k in (range(0, 14) if quick else range(0, 40)):
         L = ["w " + hx(rng.small()), "w " + hx(rng.small())] + ["gmul 1 0 0 0 0 3 - $0 $1 0 0"] * k
@@ -172,7 +177,7 @@ def run(ck):
             ck.violation(f"prover returned a proof that fails verification ({tag}): {res[c3]}",
                          {"failing_input_found": True, "compiled_circuit": S.circuits[a], "instance": S.circuits[b]}, key="returned-bad-proof")
     return ck.finish(level="proof",
-        rule="layouts: random gadget mixes, one circuit of more than 2^12 gates (default pool and pool of 3), raw rows with random selector combinations (incl. 16-row full domains whose last row reads row 0), rows carrying a (zero / non-zero) public input with the arithmetic selector on or off, gadget ending at the domain end; instances: satisfying, one witness overridden, different wiring breaking a compiled copy constraint with every row satisfied, wrong size; verdict of the extracted row evaluator on (compiled selectors, instance wires) + copy-class check vs Prover::prove; every returned proof is verified",
+        rule="layouts: random gadget mixes, one circuit of more than 2^12 gates (default pool and pool of 3), raw rows with random selector combinations (incl. 16-row full domains whose last row reads row 0), rows carrying a (zero / non-zero) public input with the arithmetic selector on or off, gadget ending at the domain end; instances: satisfying, one witness overridden, different wiring breaking a compiled copy constraint with every row satisfied, different wiring with equal values (still satisfying), wrong size; verdict of the extracted row evaluator on (compiled selectors, instance wires) + copy-class check vs Prover::prove; every returned proof is verified",
         assumptions=["the degree test is exact (C05_degree_test) given that the 8n coset points are distinct and off the domain (checked by the kernels tie of C19, not proved for every n) and that the numerator has fewer than 8n coefficients",
                      "challenges avoid the bounded bad sets of the separation theorem"],
         checker_cmd=proofgate.CHECKER_CMD, trusted_base=proofgate.TRUSTED)
